@@ -1335,7 +1335,7 @@ func init() {
 	core.Register(&core.Check{
 		ID: "C13", Level: "model_checking", Run: c13Run, Replay: c13Replay,
 		Added:       "texts that sort between a double and a single quote; wise: the same rows as one statement file per row in one invocation; revolut card payments in a foreign currency",
-		QuickBudget: 100 * time.Second, ThoroughBudget: 14 * time.Minute,
+		QuickBudget: 180 * time.Second, ThoroughBudget: 14 * time.Minute,
 		Rule: "for each of the 11 importers every statement of <= N rows (N = 2 quick, 3 thorough; viac one more) over the importer's row alphabet = {2 dates incl. same day} x {every booking kind/sign of the importer, incl. non-booking rows} x {0.50, 12.34, 1'234.56 in the format's separator style} x {CHF, EUR where the format carries a currency} x {abc, a \"quoted\" b, semi;colon, comma, x, Zürich — ☕, empty} (CSV-quoted per dialect; BOM / Latin-1 / JSON as the format requires); " +
 			"three-row statements use the texts {quoted, Unicode, empty} (one currency for wise, swissquote and interactivebrokers); real importer in-process: exit 0, stdout parses with knut's parser, opened output passes check and print reproduces it byte for byte, multiset of (transaction date + net effect on the import account per commodity, assertions, prices) equals the grammar's expectation; non-trivial = two or more rows",
 		Assumptions: []string{
